@@ -118,6 +118,10 @@ pub fn add_plan(rng: &mut Rng, profile: &str, tree: &Tree, inv: &mut Inv, oracle
     if rng.chance(0.35) {
         return;
     }
+    if rng.chance(0.1) {
+        // somebody else holds every advisory lock the process asks for
+        inv.plan.push(Rule::new("flock", "*", 1, *rng.pick(&["EWOULDBLOCK", "EWOULDBLOCK", "ENOLCK"])));
+    }
     let nh = if rng.chance(0.75) { 1 } else { 2 };
     let readable_inputs: Vec<(String, usize)> = pred
         .inputs
